@@ -20,7 +20,7 @@ RULE = ("Phonopy objects built from generated crystals (extended symbols such as
 ASSUMPTIONS = [
     "tolerance per field = half a unit of the last printed digit of its format + 4 eps |value| (yaml: lattice %21.15f, positions "
     "%19.15f, masses %f, displacements/forces %21.15f; FORCE_SETS %15.10f / %15.8f; FORCE_CONSTANTS %22.15f; BORN %13.8f)",
-    "load() is called in an empty directory so that no stray FORCE_SETS/BORN is picked up",
+    "load() is called in an otherwise empty directory; half of the cases with NAC in the yaml put a stray BORN file there, which the documented priority says is not to be read",
 ]
 CALCS = [None, "vasp", "qe", "abinit", "wien2k", "elk", "siesta", "cp2k", "crystal", "dftbp", "turbomole", "aims", "castep", "fleur", "abacus", "lammps", "pwmat"]
 EPS = np.finfo(float).eps
@@ -63,7 +63,8 @@ def sl_specs(draw, tier):
             "settings": draw(st.sampled_from([None, {"force_constants": True}, {"force_constants": False}, {"force_sets": False},
                                               {"born_effective_charge": False, "dielectric_constant": False}, {"displacements": False}])),
             "mag": draw(st.sampled_from([1.0, 1.0, 1e-9, 1e4, 1e7])), "load_compact": draw(st.booleans()),
-            "prior_light_save": draw(st.booleans()), "set_masses": draw(st.sampled_from([False, False, True]))}
+            "prior_light_save": draw(st.booleans()), "set_masses": draw(st.sampled_from([False, False, True])),
+            "stray_born": draw(st.booleans())}
 
 
 def build_phonopy(spec):
@@ -166,6 +167,16 @@ def run_save_load(spec):
             return Out(ok=False, msg="save() returned %r which does not exist" % fn)
         os.makedirs("empty", exist_ok=True)
         os.chdir("empty")
+        stray = bool(spec.get("stray_born")) and ph.nac_params is not None and (settings or {}).get("born_effective_charge", True) and \
+            (settings or {}).get("dielectric_constant", True)
+        if stray:
+            # documented priority of load(): NAC parameters of the yaml file (3) come before a 'BORN' file lying in the directory (4)
+            npr = len(ph.primitive)
+            with open("BORN", "w") as w:
+                w.write("# stray file of another calculation\n")
+                w.write(" ".join(["%.8f" % x for x in (np.eye(3) * 7.25).ravel()]) + "\n")
+                for _ in range(npr):
+                    w.write(" ".join(["%.8f" % x for x in (np.eye(3) * 0.0).ravel()]) + "\n")
         try:
             ph2 = phonopy.load(os.path.join("..", fn), produce_fc=False, is_compact_fc=spec["load_compact"], log_level=0)
         except Exception as e:
@@ -259,7 +270,7 @@ def run_save_load(spec):
     nsec = (spec["dataset"] != "none") + (spec["fc"] != "none") + (spec["nac"] != "none")
     return Out(ok=True, nontrivial=nsec >= 2, classes=["smat:" + ("diag" if spec.get("smat") is None or not np.any(np.array(spec["smat"]) - np.diag(np.diag(spec["smat"]))) else
                                                                  ("nonsym" if np.any(np.array(spec["smat"]) != np.array(spec["smat"]).T) else "sym_nondiag")),
-                                                       "masses_set_later" if spec.get("set_masses") else "masses_as_built", "ds:" + spec["dataset"], "fc:" + spec["fc"], "nac:" + spec["nac"], "calc:%s" % spec["calc"],
+                                                       "masses_set_later" if spec.get("set_masses") else "masses_as_built", "stray_BORN_in_cwd" if stray else "clean_cwd", "ds:" + spec["dataset"], "fc:" + spec["fc"], "nac:" + spec["nac"], "calc:%s" % spec["calc"],
                                                        "mag:%g" % spec["mag"], "xz" if spec["compression"] else "plain", "labels" if spec["labels"] else "plain_symbols"])
 
 
